@@ -1015,6 +1015,13 @@ fn one_case(ctx: &mut Ctx, r: &mut Rng, max_files: usize) {
                             format!("status|gix-extra|{kind}|collapsed-dir-has-index-entries")
                         } else if dirn == "gix-extra" && shape == "dir" && dir_tree_has_no_files(&dir.join(bare)) {
                             format!("status|gix-extra|{kind}|directory-tree-without-files")
+                        } else if dirn == "gix-extra"
+                            && kind == '?'
+                            && shape == "dir"
+                            && git::run(&dir, &["ls-files", "--others", "--exclude-standard", "--", bare]).map_or(false, |o| o.ok && o.stdout.is_empty())
+                        {
+                            // same cause one level up: the directory holds only ignored files and empty directories
+                            "status|gix-extra|?|directory-with-only-ignored-files-and-empty-directories".to_string()
                         } else {
                             format!("status|{dirn}|{kind}|{shape}|untracked={}|ignored={}|{class}", u_val.as_str(), ig.as_str())
                         }
